@@ -336,6 +336,26 @@ impl LightClientProtocol {
         self.peers().update_prove_state(peer_index, new_prove_state)
     }
 
+    /// Remove the matched blocks and the index entries above the fork point.
+    fn rollback_to_fork_number(&self, to_number: BlockNumber) {
+        debug!("fork to number: {}", to_number);
+        let mut matched_blocks = self.peers.matched_blocks().write().expect("poisoned");
+        let mut start_number_opt = None;
+        while let Some((start_number, _, _)) = self.storage.get_latest_matched_blocks() {
+            if start_number > to_number {
+                debug!("remove matched blocks start from: {}", start_number);
+                self.storage.remove_matched_blocks(start_number);
+            } else {
+                start_number_opt = Some(start_number);
+                break;
+            }
+        }
+        let rollback_to = start_number_opt.unwrap_or(to_number) + 1;
+        info!("rollback to block#{}", rollback_to);
+        self.storage.rollback_to_block(rollback_to);
+        matched_blocks.clear();
+    }
+
     /// Update the prove state base on the previous request.
     /// - Update the peer's cache.
     /// - Try to update the storage and handle potential fork.
@@ -364,6 +384,40 @@ impl LightClientProtocol {
                     }
                     self.storage.rollback_to_block(1);
                     matched_blocks.clear();
+                } else {
+                    // A request which starts from a remembered last header of another branch is
+                    // answered without reorg headers: the fork only shows in the new last headers.
+                    let new_last_headers: HashMap<_, _> = new_prove_state
+                        .get_last_headers()
+                        .iter()
+                        .map(|header| (header.number(), header.hash()))
+                        .collect();
+                    let mut old_last_headers = self.storage.get_last_n_headers();
+                    old_last_headers
+                        .push((prev_last_header_number, prev_last_header.calc_header_hash()));
+                    let is_forked = old_last_headers.iter().any(|(number, hash)| {
+                        new_last_headers
+                            .get(number)
+                            .map(|new_hash| new_hash != hash)
+                            .unwrap_or(false)
+                    });
+                    if is_forked {
+                        let fork_number = old_last_headers
+                            .iter()
+                            .rev()
+                            .find(|(number, hash)| new_last_headers.get(number) == Some(hash))
+                            .map(|(number, _)| *number)
+                            .or_else(|| {
+                                // the new last headers are continuous: the parent of the first one
+                                new_prove_state
+                                    .get_last_headers()
+                                    .first()
+                                    .map(|header| header.number().saturating_sub(1))
+                            });
+                        if let Some(to_number) = fork_number {
+                            self.rollback_to_fork_number(to_number);
+                        }
+                    }
                 }
             } else {
                 let old_last_headers: HashMap<_, _> =
@@ -382,23 +436,7 @@ impl LightClientProtocol {
                         .unwrap_or_default()
                 });
                 if let Some(to_number) = fork_number {
-                    debug!("fork to number: {}", to_number);
-                    let mut matched_blocks = self.peers.matched_blocks().write().expect("poisoned");
-                    let mut start_number_opt = None;
-                    while let Some((start_number, _, _)) = self.storage.get_latest_matched_blocks()
-                    {
-                        if start_number > to_number {
-                            debug!("remove matched blocks start from: {}", start_number);
-                            self.storage.remove_matched_blocks(start_number);
-                        } else {
-                            start_number_opt = Some(start_number);
-                            break;
-                        }
-                    }
-                    let rollback_to = start_number_opt.unwrap_or(to_number) + 1;
-                    info!("rollback to block#{}", rollback_to);
-                    self.storage.rollback_to_block(rollback_to);
-                    matched_blocks.clear();
+                    self.rollback_to_fork_number(to_number);
                 } else {
                     warn!("long fork detected");
                     return Ok(false);
